@@ -117,6 +117,12 @@ Dups == [
   builtinredeclfn |-> <<SPrint(EInt(1)), SFn(N_print, <<x>>, FALSE, <<>>)>>,
   builtinshadow |-> <<SBlock(<<SDecl(EVar(N_print), EInt(1)), SDecl(y, EVar(N_print))>>), SPrint(EInt(2))>>,
   builtinassign |-> <<SDecl(y, EVar(N_print)), SAssign(EVar(N_print), EInt(1)), SExpr(ECall(y, <<EVar(N_print)>>))>>,
+  thisredecl |-> <<SDecl(y, EObj(<<Pair(EStr(<<109>>), EFunc(<<>>, FALSE, <<SPrint(EInt(1)), SDecl(EVar(N_this), EInt(1))>>))>>)),
+                   SExpr(ECall(EProp(y, <<109>>), <<>>))>>,
+  thisparam  |-> <<SDecl(y, EObj(<<Pair(EStr(<<109>>), EFunc(<<EVar(N_this)>>, FALSE, <<SPrint(EInt(1))>>))>>)),
+                   SPrint(EInt(0)), SExpr(ECall(EProp(y, <<109>>), <<EInt(2)>>))>>,
+  thisblock  |-> <<SDecl(y, EObj(<<Pair(EStr(<<109>>), EFunc(<<>>, FALSE, <<SBlock(<<SDecl(EVar(N_this), EInt(1)), SPrint(EVar(N_this))>>)>>))>>)),
+                   SExpr(ECall(EProp(y, <<109>>), <<>>))>>,
   restsame   |-> <<SPrint(EInt(1)), SDecl(EPatRest(<<x, x>>), EList(<<EInt(1), EInt(2)>>))>>,
   objrestsame |-> <<SPrint(EInt(1)), SDecl(EObj(<<Short(x), PCollect(x)>>), EObj(<<Pair(EStr(NX), EInt(1))>>))>>
 ]
